@@ -75,13 +75,13 @@ def visible (req : Req) : Nat :=
 
 def kv (k : String) (v : Bytes) : Bytes := Bytes.ofString k ++ [58, 32] ++ v ++ [10]
 
-/-- the server's metadata header, keys in sorted order, `ID` for the upload id and `T` for the time -/
+/-- the server's metadata header, keys in sorted order, `ID` for the upload id -/
 def header (env : Env) (i : Nat) (fname : Bytes) : Bytes :=
   (if env.user.isEmpty then [] else kv "by" env.user)
   ++ kv "upload" (Bytes.ofString "ID")
   ++ (if fname.isEmpty then [] else kv "upload-file" fname)
   ++ kv "upload-part" (Bytes.ofString s!"ID/{i}")
-  ++ kv "upload-time" (Bytes.ofString "T")
+  ++ kv "upload-time" env.time
 
 /-- (file name, content) of every file a successful upload must leave in the store -/
 def storedFiles (env : Env) : List Part → Nat → List (Bytes × Bytes)
@@ -89,20 +89,5 @@ def storedFiles (env : Env) : List Part → Nat → List (Bytes × Bytes)
   | Part.field _ :: ps, i => storedFiles env ps (i + 1)
   | Part.file fname content _ _ :: ps, i =>
     (Bytes.ofString s!"uploads/ID/{i}.txt", header env i fname ++ [10] ++ content) :: storedFiles env ps (i + 1)
-
-/-! known-finding classes (decidable over the case) -/
-
-/-- index of the separator write of each file in a fault-free run -/
-def separatorOps (env : Env) : List Part → Nat → List Nat
-  | [], _ => []
-  | Part.field _ :: ps, base => separatorOps env ps base
-  | Part.file fname _ _ chunks :: ps, base =>
-    (base + 1 + nkeys env fname) :: separatorOps env ps (base + 1 + nkeys env fname + 1 + chunks.length + 1)
-
-def closeOps (env : Env) : List Part → Nat → List Nat
-  | [], _ => []
-  | Part.field _ :: ps, base => closeOps env ps base
-  | Part.file fname _ _ chunks :: ps, base =>
-    (base + 1 + nkeys env fname + 1 + chunks.length) :: closeOps env ps (base + 1 + nkeys env fname + 1 + chunks.length + 1)
 
 end Spec.UploadAtomic
